@@ -777,6 +777,10 @@ fn main() {
             if args.engine_enabled("tl") {
                 tl_random(&args, &mut rep, prop, sc(10_000.0, 300_000.0));
             }
+            // abandoned and failing gets at full speed on several threads: the figures at rest afterwards
+            if args.engine_enabled("th_race") {
+                th_race(&args, &mut rep, prop, sc(300.0, 12_000.0), false, false);
+            }
         }
         "C04" => {
             if args.engine_enabled("tl_c04") {
